@@ -48,3 +48,13 @@ NATIVE = {
                       ('crates/cairo-lang-sierra-to-casm/src/annotations.rs', 'impl ProgramAnnotations', 'validate_final_annotations')],
     },
 }
+
+NATIVE['n_c17_casm_paths'] = {
+    'crate': 'cairo-lang-sierra-to-casm',
+    'host': 'crates/cairo-lang-sierra-to-casm/src/compiler.rs',
+    'harness': 'native/cairo-lang-sierra-to-casm/n_c17_casm_paths.rs',
+    'props': {'C17'},
+    'bound': 'Sierra corpus: contracts/native/corpus/c17/*.sierra + the repository\'s *.sierra files that compile with the default configuration; every entry-to-ret path of every function with a Known declared ap change',
+    'functions': [('crates/cairo-lang-sierra-ap-change/src/core_libfunc_ap_change.rs', None, 'core_libfunc_ap_change'),
+                  ('crates/cairo-lang-sierra-to-casm/src/compiler.rs', None, 'compile')],
+}
